@@ -389,7 +389,7 @@ pub fn run(tier: Tier, seed: u64) -> i32 {
         run.random("library", tier.pick(60_000, 2_500_000), 600, |b| case(b, false));
     }
     if tier == Tier::Thorough && !run.failed() {
-        run.fuzz("libfuzzer", 1_500_000, 8, 600, fuzz_case);
+        run.fuzz("libfuzzer", 60_000, 8, 600, fuzz_case);
     }
     let code = run.finish();
     cleanup_scratch();
